@@ -196,7 +196,7 @@ def programs(mido, size):
             return bodies, lambda: {'sent': sent, 'keep': port}
         return make
 
-    def p_ioport():
+    def p_ioport(how='poll'):
         def make():
             wire = []
             inp = ByteInput('in', wire_in=wire)
@@ -209,12 +209,16 @@ def programs(mido, size):
 
             def poll_once():
                 try:
-                    m = port.poll()
+                    if how == 'poll':
+                        ms = [port.poll()]
+                    elif how == 'iter_pending':
+                        ms = list(port.iter_pending())
+                    else:
+                        ms = [port.receive(block=False)]
                 except Exception as e:
-                    return [('raised', 'poll', type(e).__name__, str(e))]
-                if m is None:
-                    return []
-                return [('got', m.channel, m.note, m.velocity, m.type)]
+                    return [('raised', how, type(e).__name__, str(e))]
+                return [('got', m.channel, m.note, m.velocity, m.type)
+                        for m in ms if m is not None]
             # 2 messages and three single polls (nobody can starve): the
             # wrapper's pending-check and pop can be separated by one
             # preemption
@@ -327,6 +331,7 @@ def programs(mido, size):
         'P1c-echo-iter_pending': p_echo('iter_pending'),
         'P2-locked-device-bytewise': p_device(),
         'P3-ioport-wrapper': p_ioport(),
+        'P3b-ioport-wrapper-iter_pending': p_ioport('iter_pending'),
         'P4-multiport-receive': p_multi(None),
         'P4c-multiport-send': p_multi_send(),
         'P5-parser-queue': p_queue(),
